@@ -46,6 +46,10 @@ def parseCmd (w : String) : Option Cmd :=
   | ["ps", c, v] => some (.preSub (nat! c) (int! v))
   | ["ld", c] => some (.load (nat! c))
   | ["lf", c, v] => some (.lfAdd (nat! c + 100) (int! v))
+  | ["su", t, v] => some (.setUnf (nat! t) (int! v))
+  | ["sd", q, t] => some (.seed (nat! q) (nat! t))
+  | ["rl"] => some .release
+  | ["ln"] => some .loadNum
   | _ => none
 
 def showRes : Res → String
@@ -61,6 +65,9 @@ def showRes : Res → String
   | .popped q none => s!"P{q}.N"
   | .qsize q n => s!"Q{q}.{n}"
   | .val c v => s!"V{c}.{v}"
+  | .seeded q t => s!"SD{q}.{t}"
+  | .released p n => s!"R{p}.{n}"
+  | .num v => s!"N{v}"
   | .skip => "K"
 
 def pcName : PC → String
@@ -70,8 +77,9 @@ def pcName : PC → String
   | .freeReset _ => "freeReset" | .freeUnlock _ => "freeUnlock" | .freeDec _ => "freeDec"
   | .lockSpin _ => "lockSpin" | .lockTry _ => "lockTry" | .unlockL _ => "unlockL"
   | .tlStart _ _ => "tlStart" | .tl0 _ _ => "tl0" | .tl1 _ _ => "tl1" | .tlBack _ _ => "tlBack"
-  | .tuStart _ => "tuStart" | .tu1 _ => "tu1" | .tu0 _ => "tu0" | .addLock _ _ => "addLock" | .addBody _ _ => "addBody"
-  | .addUnlock _ _ => "addUnlock" | .popLock _ b => if b then "popLock" else "tryPopLock"
+  | .tuStart _ => "tuStart" | .tu1 _ => "tu1" | .tu0 _ => "tu0" | .addLock _ _ _ => "addLock" | .addBody _ _ _ => "addBody"
+  | .addUnlock _ _ .plain => "addUnlock" | .addUnlock _ _ _ => "addUnlockK"
+  | .numInc _ _ _ => "numInc" | .relDec _ _ _ => "relDec" | .retire _ => "retire" | .setUnf _ _ => "setUnf" | .loadNum => "loadNum" | .popLock _ b => if b then "popLock" else "tryPopLock"
   | .popInit _ => "popInit" | .popScan _ _ => "popScan" | .popRemove _ _ _ => "popRemove"
   | .popUnlock _ r => if r.isSome then "popUnlockT" else "popUnlockN" | .qsz _ => "qsz"
   | .cInc _ => "cInc" | .cDec _ => "cDec" | .cPostInc _ => "cPostInc" | .cPreAdd _ _ => "cPreAdd"
@@ -83,6 +91,7 @@ structure Scen where
   nlocks : Nat
   nqueues : Nat
   nctr : Nat
+  ntasks : Nat
   progs : List (List Cmd)
   mode : String
   sched : List Nat
@@ -90,6 +99,12 @@ structure Scen where
 def pairs : List String → List (Option Nat × Option Nat)
   | a :: b :: rest => mkDeps (optNat a) (optNat b) :: pairs rest
   | _ => []
+
+/-- hydro section: one token `children:queue` per task, children comma separated or `-` -/
+def parseHydro (ws : List String) : List (List Nat × Nat) :=
+  ws.map fun w => match w.splitOn ":" with
+    | [cs, q] => ((if cs = "-" then [] else (cs.splitOn ",").map nat!), nat! q)
+    | _ => ([], 0)
 
 def splitBar (ws : List String) : List (List String) :=
   let (cur, acc) := ws.foldl (fun (p : List String × List (List String)) w =>
@@ -101,15 +116,19 @@ def parseScen (ws : List String) : Option Scen :=
   | [] => none
   | hd :: rest =>
     match hd with
-    | "S" :: size :: cap :: nl :: nq :: nc :: "T" :: deps =>
+    | "S" :: size :: cap :: nl :: nq :: nc :: "T" :: deps0 =>
       match rest.reverse with
       | [m, arg] :: progsRev =>
+        let deps := deps0.takeWhile (· ≠ "H")
+        let hydro := parseHydro ((deps0.dropWhile (· ≠ "H")).drop 1)
         let table := pairs deps
         let progs := progsRev.reverse.map (fun p => p.filterMap parseCmd)
         let bad := progsRev.any (fun p => p.any (fun w => (parseCmd w).isNone))
         if bad then none else
-        some { cfg := { size := nat! size, cap := nat! cap, deps := fun t => table.getD t (none, none) },
-               nlocks := nat! nl, nqueues := nat! nq, nctr := nat! nc, progs := progs, mode := m,
+        some { cfg := { size := nat! size, cap := nat! cap, deps := fun t => table.getD t (none, none),
+                        children := fun t => (hydro.getD t ([], 0)).1, queueOf := fun t => (hydro.getD t ([], 0)).2,
+                        nq := nat! nq },
+               nlocks := nat! nl, nqueues := nat! nq, nctr := nat! nc, ntasks := table.length, progs := progs, mode := m,
                sched := if m = "X" then arg.toList.map (fun c => c.toNat - '0'.toNat) else [] }
       | _ => none
     | _ => none
@@ -153,7 +172,8 @@ def finalDump (sc : Scen) (s : State) : String :=
   let qs := " ".intercalate ((List.range sc.nqueues).map fun q => s!"q{q}={commaNat (m.items q)}")
   s!"taken={m.taken} cur={m.cur} max={m.maxTaken} tot={m.totalTaken} flags={bits m.flags sc.cfg.size} " ++
   s!"cnt={commaNat ((List.range sc.cfg.size).map m.count)} locks={bits (fun k => m.locks (.dep k)) sc.nlocks} " ++
-  s!"ql={bits (fun q => m.locks (.queue q)) sc.nqueues} {qs} ctr={commaInt ((List.range sc.nctr).map m.ctr)}"
+  s!"ql={bits (fun q => m.locks (.queue q)) sc.nqueues} {qs} ctr={commaInt ((List.range sc.nctr).map m.ctr)} " ++
+  s!"num={m.num} unf={commaInt ((List.range sc.ntasks).map m.unf)}"
 
 def insertSorted (x : Nat) : List Nat → List Nat
   | [] => [x]
